@@ -470,6 +470,38 @@ enum Done {
     Bufs(Vec<(usize, Vec<u8>)>),
 }
 
+/// The case under C06's audit: whatever the composite future did, after it
+/// resolved and everything was dropped nothing allocated during the case may
+/// still be live, and nothing may have been freed twice. (Failures of C10's
+/// own oracle are not C06's business and are ignored here.)
+pub fn run_audited(case: &Case, ctx: &mut Ctx) {
+    let known = Vec::new();
+    let mut inner = Ctx::new("C10", &known, Tier::Quick);
+    run_case(case, &mut inner);
+    let mark = crate::interp::world::last_mark();
+    let events = track::take_events();
+    let leaks = track::live_since(mark);
+    if let Some(i) = inner.infra.take() {
+        ctx.infra(i);
+        track::forget_since(mark);
+        return;
+    }
+    for e in events {
+        if let track::Event::ForeignFree { addr, size } = e {
+            ctx.violation("C06:composite:double-free", format!("{:?}: free of {addr:#x} (size {size}) which is not a live block", case.op));
+        }
+    }
+    if !leaks.is_empty() {
+        let desc: Vec<String> = leaks.iter().take(4).map(|b| format!("{:#x}+{} tag {}", b.addr, b.size, b.tag)).collect();
+        ctx.violation("C06:composite:state-leaked", format!("{:?} in {} steps: {} blocks allocated during the operation are still live after the future resolved and everything was dropped: {}", case.op, inner.classes.len(), leaks.len(), desc.join(", ")));
+        track::forget_since(mark);
+    }
+    ctx.class("composite");
+    ctx.class(&format!("{:?}", case.op));
+    ctx.nontrivial = inner.nontrivial;
+    ctx.fingerprint = format!("composite|{}", inner.fingerprint);
+}
+
 fn run_case(case: &Case, ctx: &mut Ctx) {
     let mut world = match World::new(&RingCfg::simple(3)) {
         Ok(w) => w,
